@@ -40,7 +40,7 @@ Ops(t, path, ln) ==
                 \o FoldLeft(LAMBDA acc, e :
                               acc \o Ops(t.elem, Append(path, e - 1), ln + (e - 1) * L),
                             <<>>, [e \in 1..t.cap |-> e])
-                \o << [op |-> "ALeave", ext |-> t.ext, cap |-> t.cap] >>
+                \o << [op |-> "ALeave", ext |-> t.ext, cap |-> t.cap, ebits |-> NBits(t.elem)] >>
       [] t.k = "msg" ->
             LET ord == Order(t.fields)
                 \* leaves before the p-th field in wire order
@@ -63,9 +63,14 @@ Leaves(t, v) ==
       [] t.k = "msg" ->
             FoldLeft(LAMBDA acc, x : acc \o Leaves(t.fields[x].t, v[x]), <<>>, Order(t.fields))
 
-(* The implementation's array skip distance, kept as a NAMED DEVIATION:    *)
-(* bp.py:316, bitproto.c:233, bitproto.go:350 compute i + ahead*cap.       *)
-CONSTANT UseImplSkip
+(* Array skip distance.  "observed" is the specified one (16 + ahead * the  *)
+(* stream bits one element occupied).  Two NAMED DEVIATIONS are kept as     *)
+(* negative controls that TLC must refute:                                  *)
+(*  "impl-old": i + ahead*cap, what bp.py:316, bitproto.c:233 and           *)
+(*              bitproto.go:350 computed on the pinned tree (defect D5);    *)
+(*  "static"  : 16 + ahead * the receiver's own declared element size,      *)
+(*              wrong as soon as the element itself was extended.           *)
+CONSTANT SkipVariant
 
 VARIABLES
     mode,    \* "enc" | "dec"
@@ -169,8 +174,9 @@ LeaveMessage ==
 LeaveArray ==
     /\ Running /\ Op.op = "ALeave"
     /\ LET eobs == (i - Top.i1) \div Op.cap
-           ito == IF UseImplSkip THEN Top.start + Top.ahead * Op.cap
-                  ELSE Top.start + 16 + Top.ahead * eobs
+           ito == CASE SkipVariant = "impl-old" -> Top.start + Top.ahead * Op.cap
+                    [] SkipVariant = "static" -> Top.start + 16 + Top.ahead * Op.ebits
+                    [] OTHER -> Top.start + 16 + Top.ahead * eobs
        IN  i' = IF Op.ext /\ mode = "dec" /\ ito >= i THEN ito ELSE i
     /\ marks' = Pop
     /\ pc' = pc + 1
